@@ -7,7 +7,8 @@ RULE = ("a case is (scheme, configuration from the supported grid, key from KeyG
         "are built by construction from a length profile (uniform small / lengths on the block, level and case thresholds of the "
         "active configuration / one list of 2^j postings / many lists of 2^j+1 / N=1 / single keyword / N around 2^t), structured "
         "keyword families and identifier layouts (big/little-endian counters, hashed, shared pool); plus every integer partition "
-        "of N <= 9 (quick) / <= 16 under 3 configs (thorough) and the default configurations at their own boundaries. Oracle: "
+        "of N <= 9 (quick) / <= 16 under 3 configs (thorough) and the default configurations at their own boundaries; for 8 schemes (not SSE-2) a keyword contained in 2^16-1 / 2^16 / 2^16+1 "
+        "documents (2^17+1 for the block-based CJJ14 schemes). Oracle: "
         "Search(Setup(DB),Tok(w)) == DB[w] for every w (set for DP17), any exception on a valid input is a violation. "
         "Non-trivial = the profile hits a boundary class (N=1, N=2^t, one list holding all 2^t postings, a list on a threshold, "
         "Pi2Lev medium/large case, DP17 L>1); distinct = distinct (scheme, config, sorted length profile, id layout).")
@@ -17,7 +18,7 @@ ASSUMPTIONS = ["valid database = the quantifier of C01 (non-empty keywords witho
 
 
 def shards(tier):
-    return SP.make_shards(tier)
+    return SP.make_shards(tier, huge=True)
 
 
 def run_shard(spec, seed, tier):
